@@ -155,7 +155,7 @@ func (c *Collection) add(key string, exp Exp, val []byte, isJSON bool) (added bo
 		result, err := txn.Exec(
 			`INSERT INTO documents (collection,key,value,cas,exp,isJSON, revSeqNo) VALUES (?1,?2,?3,?4,?5,?6,?7)
 				ON CONFLICT(collection,key) DO
-					UPDATE SET value=?3, xattrs=null, cas=?4, exp=?5, isJSON=?6, tombstone=0
+					UPDATE SET value=?3, xattrs=null, cas=?4, exp=?5, isJSON=?6, tombstone=0, revSeqNo=revSeqNo+1
 					WHERE tombstone != 0`,
 			c.id, key, val, newCas, exp, isJSON, 1, revSeqNo)
 		if err != nil {
@@ -166,6 +166,11 @@ func (c *Collection) add(key string, exp Exp, val []byte, isJSON bool) (added bo
 		added = (n > 0)
 		if !added {
 			return nil, nil // nothing was written, so there is no event to post
+		}
+		// Adding over a tombstone continues its revision count:
+		row := txn.QueryRow(`SELECT revSeqNo FROM documents WHERE collection=?1 AND key=?2`, c.id, key)
+		if err = scan(row, &revSeqNo); err != nil {
+			return nil, err
 		}
 
 		e = &event{
@@ -319,12 +324,9 @@ func (c *Collection) WriteCas(key string, exp Exp, cas CAS, val any, opt sgbucke
 	err = c.withNewCas(func(txn *sql.Tx, newCas CAS) (*event, error) {
 		wasTombstone := false
 		var revSeqNo uint64
-		if cas != 0 {
-			row := txn.QueryRow("SELECT revSeqNo, tombstone FROM documents WHERE collection=? AND key=?", c.id, key)
-			err = scan(row, &revSeqNo, &wasTombstone)
-			if err != nil {
-				return nil, remapKeyError(err, key)
-			}
+		row := txn.QueryRow("SELECT revSeqNo, tombstone FROM documents WHERE collection=? AND key=?", c.id, key)
+		if scanErr := scan(row, &revSeqNo, &wasTombstone); scanErr != nil && (cas != 0 || scanErr != sql.ErrNoRows) {
+			return nil, remapKeyError(scanErr, key)
 		}
 		revSeqNo++
 		exp = absoluteExpiry(exp)
